@@ -13,7 +13,7 @@ SPEC = {
     ],
     "jobs": [
         {"name": "asan", "harness": "c06_dvb_mux", "srcs": ["harness/c06_dvb_mux.c"], "flavour": "asan",
-         "cases": {"quick": 64000, "thorough": 4000000}, "budget": 30},
+         "cases": {"quick": 128000, "thorough": 4000000}, "budget": 30},
     ],
     "min_distinct": 60,
     "min_counters": {"frames_accepted": 1000, "demux_frames_compared": 500, "ts_packets": 1000,
